@@ -134,11 +134,9 @@ def handleShard (f : List String) : String × String × String :=
       -- judge on the implementation's answers
       let A := parseIds oA; let B := parseIds oB; let C := parseIds oC; let D := parseIds oD; let E := parseIds oE
       let tokless := hasTokenless d || hasTokenless d'
-      -- input class of finding F2 (sizes whose float64 conversion overflows): own reason keys
-      let nm := fun (x : Int) => if za && nearMaxInt x then "_nearmaxint" else ""
-      let j1 := checkPlain za d s A (nm s) ++ checkPlain za d s2 B ("_s2" ++ nm s2) ++ checkPlain za d' s C ("_r2" ++ nm s) ++ checkPlain za rp s D ("_rp" ++ nm s)
+      let j1 := checkPlain za d s A "" ++ checkPlain za d s2 B "_s2" ++ checkPlain za d' s C "_r2" ++ checkPlain za rp s D "_rp"
       let j2 := if coreEq d rp && sortStr A != sortStr D then ["determinism"] else []
-      let j3 := if sizeLe s s2 && !subset A B then ["mono" ++ nm s ++ nm s2] else []
+      let j3 := if sizeLe s s2 && !subset A B then ["mono"] else []
       let zc := (zonesIn d).length != (zonesIn d').length
       let changed := (sdiff C A).length > 1 || (sdiff A C).length > 1
       let j4 :=
@@ -147,12 +145,12 @@ def handleShard (f : List String) : String × String × String :=
           | .none => ["one_change"]
           | .ro _ _ _ => ["one_change_ro"]
           | _ => if za && zc then ["one_change_zonecount"] else ["one_change"]
-      let j5 := (if subset A E then [] else ["lookback_superset" ++ nm s]) ++ (if subset E (d.map (·.id)) then [] else ["subset_lb"])
+      let j5 := (if subset A E then [] else ["lookback_superset"]) ++ (if subset E (d.map (·.id)) then [] else ["subset_lb"])
       let n := d.length
       let eln := (eligible d).length
       let szc := if s ≤ 0 then "le0" else if s.toNat < n then "lt" else if s.toNat == n then "eq" else "gt"
       let sel := if A.isEmpty then "empty" else if A.length == eln then "all" else "proper"
-      let tags := s!"k=shard za={if za then 1 else 0} n={bucket n} zones={(zonesIn d).length} size={szc} op={opTag op} ro={if eln < n then 1 else 0} lb={if period > 0 then 1 else 0} lbext={if E.length > A.length then 1 else 0} sel={sel} moved={if sortStr A != sortStr C then 1 else 0} tokless={if tokless then 1 else 0} nearmax={if nearMaxInt s || nearMaxInt s2 then 1 else 0} zc={if zc then 1 else 0} triv={if n ≤ 1 then 1 else 0}"
+      let tags := s!"k=shard za={if za then 1 else 0} n={bucket n} zones={(zonesIn d).length} size={szc} op={opTag op} ro={if eln < n then 1 else 0} lb={if period > 0 then 1 else 0} lbext={if E.length > A.length then 1 else 0} sel={sel} moved={if sortStr A != sortStr C then 1 else 0} tokless={if tokless then 1 else 0} nearmax={if (s ≥ maxInt - 511) || (s2 ≥ maxInt - 511) then 1 else 0} zc={if zc then 1 else 0} triv={if n ≤ 1 then 1 else 0}"
       (diff, reasons (j1 ++ j2 ++ j3 ++ j4 ++ j5), tags)
     | _, _, _, _, _, _, _, _ => ("parse-error", "-", "-")
   | _ => ("bad-arity", "-", "-")
